@@ -75,6 +75,10 @@ pub struct Search<'m, M: Model> {
     pub max_depth: u32,
     /// stop at the first violation of each distinct (property, signature); keep at most this many
     pub max_violations: usize,
+    /// stop after the layer in which the first violation was found (shortest traces are
+    /// already guaranteed by breadth-first order; a buggy implementation may have an unbounded
+    /// state space, so searching on is pointless)
+    pub stop_on_violation: bool,
 }
 
 struct Succ<S> {
@@ -88,7 +92,7 @@ struct Succ<S> {
 
 impl<'m, M: Model> Search<'m, M> {
     pub fn new(model: &'m M) -> Self {
-        Self { model, threads: 16, max_states: u64::MAX, max_depth: u32::MAX, max_violations: 8 }
+        Self { model, threads: 16, max_states: u64::MAX, max_depth: u32::MAX, max_violations: 8, stop_on_violation: true }
     }
 
     /// Run to closure (or cap). Calls `on_state(state, depth)` for every distinct state in
@@ -221,6 +225,10 @@ impl<'m, M: Model> Search<'m, M> {
                         next.push((id, s.state));
                     }
                 }
+            }
+            if self.stop_on_violation && !found.is_empty() {
+                stats.capped = true;
+                break;
             }
             // op labels for traces are reconstructed lazily (see trace_to); keep going
             self.label_cache_fill(&frontier);
